@@ -512,8 +512,10 @@ func bucket(n int) string {
 		return "2-4"
 	case n <= 16:
 		return "5-16"
+	case n <= 64:
+		return "17-64"
 	}
-	return ">16"
+	return ">64"
 }
 
 func (w *world) genRoute(r *core.RNG, k int, both []string) {
